@@ -34,6 +34,8 @@ pub fn gen_doc(t: &mut Tape, gates: &Gates) -> Doc {
     // non-ASCII documents are generated also while KF-C15-02 is known (then judged in bytes)
     let _ = gates.want("SEMANTIC_TOKENS_NON_ASCII_DOCUMENT");
     opts.non_ascii = lt.ratio(1, 4);
+    opts.line_comments = gates.want("TRIVIA_LINE_COMMENT");
+    opts.touch = gates.want("LEXEMES_MAY_TOUCH");
     // OSCAT marker comments are not used here: a blanked description block is no comment lexeme
     opts.oscat_phase.set(255);
     let (lay, _) = layout(&lexemes, &opts, &mut lt);
